@@ -22,7 +22,7 @@ func timestamp(t time.Time) int64 {
 	if t.IsZero() {
 		return 0
 	}
-	return t.UnixNano() / int64(time.Millisecond)
+	return t.UnixMilli()
 }
 
 func makeDuration(ms int32) time.Duration {
